@@ -82,7 +82,8 @@ pub fn char_index_to_position(content: &str, char_index: usize) -> Position {
         }
     }
 
-    let character = char_index - last_line_start;
+    // LSP positions count UTF-16 code units since the last line break
+    let character = content[last_line_start..char_index].encode_utf16().count();
 
     Position {
         line: line as u32,
